@@ -1,7 +1,7 @@
 (* C10 - all views of a repeated field stay consistent with each other.
    Model: Views.v (fx = true: the code with fixes/c10-*.patch and the insert() normalisation applied;
    fx = false: the code as found).  Proofs: ViewsProofs.v, PySeqProofs.v. *)
-From AB Require Import Prelude PySeq PySeqProofs Views ViewsProofs.
+From AB Require Import Prelude PySeq PySeqProofs Views ViewsProofs ViewsRun ViewsSemProofs.
 
 (* The heart: bisect + shift in handle_splice keeps a sorted index cache exact, for every list, every
    replaced range l <= r inside it and every replacement. *)
@@ -48,40 +48,164 @@ Proof.
   - intros index. now apply (v_getitem_spec s v HV true).
 Qed.
 
-(* Mutations through a view have Python list semantics on the filtered list (x of the view's type):
-   view[i] = x (node views), insert, pop, append, extend, clear. *)
-Theorem C10_list_semantics_partial : forall s v x,
-  ViewInv (items s) v -> matches (v_tags v) x = true ->
+(* Every registered view of every reachable state has an exact cache. *)
+Theorem C10_view_inv_in_history : forall its ops v,
+  In v (views (run true (mkst its []) ops)) -> ViewInv (items (run true (mkst its []) ops)) v.
+Proof.
+  intros its ops v Hin. pose proof (C10_view_inv_history its ops) as H.
+  unfold AllInv in H. rewrite Forall_forall in H. now apply H.
+Qed.
+
+(* Each view obeys Python list semantics for every index and slice: a mutation through a view (cache
+   exact, values of the view's type) makes of the converted view exactly what the same Python list
+   operation (PySeq) makes of the converted filtered list, with the same exception class and nothing
+   changed when it raises.  fr = from_raw_type (identity for node views, .value for string/custom views).
+   view[slice] = xs has the one documented restriction (list_setitem_eqlen: a slice takes a sequence of
+   its own length, else ValueError). *)
+Theorem C10_list_semantics : forall s v,
+  ViewInv (items s) v ->
   let F := filtered (v_tags v) (items s) in
   let Fof := fun s' : st => filtered (v_tags v) (items s') in
-  (forall i, v_kind v = KNode ->
-     match list_set_int F i x with
-     | Ok F' => exists s', v_setitem true s v (IInt i) [x] = (s', OkNone) /\ Fof s' = F'
-     | Err e => v_setitem true s v (IInt i) [x] = (s, Err e)
+  let fr := from_raw (v_kind v) in
+  (* view[i] = x, view[a:b:k] = xs *)
+  (forall index xs, forallb (matches (v_tags v)) xs = true ->
+     (match index with IInt _ => length xs = 1%nat | ISlice _ => True end) ->
+     match list_setitem_eqlen (map fr F) index (map fr xs) with
+     | Ok C' => exists s', v_setitem true s v index xs = (s', OkNone) /\ map fr (Fof s') = C'
+     | Err e => v_setitem true s v index xs = (s, Err e)
      end)
-  /\ (forall i, exists s', v_insert true s v i x = (s', OkNone) /\ Fof s' = list_insert F i x)
-  /\ (forall i,
-        match list_pop F i with
-        | Ok (y, F') => exists s', v_pop s v i = (s', Ok [from_raw (v_kind v) y]) /\ Fof s' = F'
-        | Err e => v_pop s v i = (s, Err e)
+  (* del view[i], del view[a:b:k] *)
+  /\ (forall index,
+        match (match index with IInt i => list_del_int F i | ISlice sl => list_del_slice F sl end) with
+        | Ok F' => exists s', v_delitem s v index = (s', OkNone) /\ Fof s' = F'
+        | Err e => v_delitem s v index = (s, Err e)
         end)
-  /\ (exists s', v_append s x = (s', OkNone) /\ Fof s' = F ++ [x])
+  (* insert, append, extend *)
+  /\ (forall i x, matches (v_tags v) x = true ->
+        exists s', v_insert true s v i x = (s', OkNone) /\ Fof s' = list_insert F i x)
+  /\ (forall x, matches (v_tags v) x = true ->
+        exists s', v_append s x = (s', OkNone) /\ Fof s' = F ++ [x])
   /\ (forall xs, forallb (matches (v_tags v)) xs = true ->
         exists s', v_extend s xs = (s', OkNone) /\ Fof s' = F ++ xs)
+  (* pop, remove, discard, clear *)
+  /\ (forall i,
+        match list_pop F i with
+        | Ok (y, F') => exists s', v_pop s v i = (s', Ok [fr y]) /\ Fof s' = F'
+        | Err e => v_pop s v i = (s, Err e)
+        end)
+  /\ (forall value,
+        match list_remove elem_eqb (map fr F) value with
+        | Ok C' => exists s', v_remove s v value = (s', OkNone) /\ map fr (Fof s') = C'
+        | Err e => v_remove s v value = (s, Err e)
+        end)
+  /\ (forall value,
+        exists s', v_discard s v value = (s', OkNone)
+                   /\ map fr (Fof s') = filter (fun c => negb (elem_eqb c value)) (map fr F))
   /\ (exists s', v_clear s v = (s', OkNone) /\ Fof s' = []).
 Proof.
-  intros s v x HV HX F Fof. repeat split.
-  - intros i. exact (v_setitem_int_spec s v x HV HX i).
-  - intros i. exact (v_insert_spec s v x HV HX i).
-  - intros i. exact (v_pop_spec s v x HV HX i).
-  - exact (v_append_spec s v x HX).
+  intros s v HV F Fof fr. repeat split.
+  - intros index xs Hxs Hone. exact (v_setitem_spec s v HV index xs Hxs Hone).
+  - intros index. exact (v_delitem_spec s v HV index).
+  - intros i x HX. exact (v_insert_spec s v x HV HX i).
+  - intros x HX. exact (v_append_spec s v x HX).
   - intros xs. exact (v_extend_spec s v xs).
+  - intros i. destruct (list_pop F i) as [[y F']|e] eqn:E.
+    + assert (Hy : matches (v_tags v) y = true).
+      { unfold list_pop in E. destruct (list_get_int F i) as [y'|] eqn:Eg; [|discriminate].
+        destruct (norm_index (zlen F) i); [|discriminate]. inversion E; subst.
+        unfold list_get_int in Eg. destruct (norm_index (zlen F) i) as [j|]; [|discriminate].
+        destruct (nth_error F (Z.to_nat j)) eqn:En; [|discriminate]. inversion Eg; subst.
+        apply nth_error_In in En. apply filter_In in En. apply En. }
+      pose proof (v_pop_spec s v y HV Hy i) as H. cbv zeta in H. fold F in H. now rewrite E in H.
+    + destruct F as [|y0 F0] eqn:EF.
+      * (* empty view: pop raises IndexError without needing an element of the view's type *)
+        unfold v_pop. unfold ViewInv in HV. rewrite HV, positions_length. fold (filtered (v_tags v) (items s)).
+        change (filtered (v_tags v) (items s)) with F. rewrite EF. cbn [zlen length Z.of_nat Z.opp].
+        unfold list_pop, list_get_int, norm_index in E. cbn [zlen length Z.of_nat] in E.
+        destruct ((0 <=? i) && (i <? 0)) eqn:E1; [lia|].
+        replace (negb ((0 <=? i) && (i <? 0))) with true by lia.
+        destruct ((i <? 0) && (0 <=? i + 0)) eqn:E2; [lia|]. now inversion E.
+      * assert (Hy : matches (v_tags v) y0 = true).
+        { assert (Hin : In y0 F) by (rewrite EF; now left). apply filter_In in Hin. apply Hin. }
+        pose proof (v_pop_spec s v y0 HV Hy i) as H. cbv zeta in H. fold F in H.
+        rewrite EF in H. now rewrite E in H.
+  - intros value. exact (v_remove_spec s v value HV).
+  - intros value. exact (v_discard_spec s v value HV).
   - exact (v_clear_spec s v HV).
 Qed.
-(* Missing from the full C10_list_semantics (not proved as list equations; covered by the preserved
-   invariant, the correspondence and the list/dict reference monitor of harness/c10.py):
-   del view[index] and view[slice] = xs as equations on the filtered list, view[i] = x for string/custom
-   views (in-place update), remove/discard, and the first-match mapping layer. *)
+
+(* The mapping view of meta (RepeatedRawMetaItemWrapper: raw = true, RepeatedMetaItemWrapper: raw = false)
+   refines an ordered association list with first-match semantics, after every history interleaved with
+   list-style and raw-list mutations: F = the MetaItems in order, keyed by e_key. KeyError exactly when
+   the key is absent. *)
+Theorem C10_mapping_refines_assoc_list : forall its ops v,
+  let s := run true (mkst its []) ops in
+  In v (views s) -> v_kind v = KNode ->
+  let F := filtered (v_tags v) (items s) in
+  let Fof := fun s' : st => filtered (v_tags v) (items s') in
+  (forall raw key,
+     m_getitem raw s v key =
+     (s, match assoc_find key F with
+         | Some x => Ok [if raw then x else value_of x] | None => Err KeyError end))
+  /\ (forall key, m_contains s v key =
+        (s, Ok [mkelem 0 0 (match assoc_find key F with Some _ => 1 | None => 0 end)]))
+  /\ (forall key,
+        match assoc_find key F with
+        | None => m_delitem s v key = (s, Err KeyError)
+        | Some _ => exists s', m_delitem s v key = (s', OkNone) /\ Fof s' = assoc_del key F
+        end)
+  /\ (forall raw key dflt,
+        match assoc_find key F with
+        | None => m_pop raw s v key dflt = (s, if dflt then Ok [default_marker] else Err KeyError)
+        | Some x => exists s', m_pop raw s v key dflt = (s', Ok [if raw then x else value_of x])
+                               /\ Fof s' = assoc_del key F
+        end)
+  /\ (forall key x, matches (v_tags v) x = true ->
+        exists s', m_setitem true true s v key x = (s', OkNone)
+                   /\ Fof s' = match assoc_find key F with
+                               | Some _ => assoc_replace key x F | None => F ++ [x] end)
+  /\ (forall key x, matches (v_tags v) x = true ->
+        exists s', m_setitem true false s v key x = (s', OkNone)
+                   /\ Fof s' = match assoc_find key F with
+                               | Some _ => assoc_set_value key (e_val x) F | None => F ++ [x] end)
+  /\ m_keys s v = (s, Ok (map (fun x => mkelem 0 (e_key x) 0) F))
+  /\ (forall raw, m_values raw s v = (s, Ok (map (fun x => if raw then x else value_of x) F)))
+  /\ (forall raw, m_items raw s v
+                  = (s, Ok (map (fun x => if raw then x else mkelem 0 (e_key x) (e_val x)) F))).
+Proof.
+  intros its ops v s Hin HK F Fof.
+  pose proof (C10_view_inv_in_history its ops v Hin) as HV. fold s in HV.
+  split; [intros; now apply m_getitem_spec|].
+  split; [intros; now apply m_contains_spec|].
+  split; [intros key; exact (m_delitem_spec s v HV key)|].
+  split; [intros raw key dflt; exact (m_pop_spec s v HV HK raw key dflt)|].
+  split; [intros key x HX; exact (m_setitem_raw_spec s v HV HK key x HX)|].
+  split; [intros key x HX; exact (m_setitem_value_spec s v HV key x HX)|].
+  exact (m_views_spec s v HV).
+Qed.
+
+(* Cross-view consistency, the way the property reads: after any history - whichever views the edits
+   went through - every registered view shows the raw list filtered/converted at that moment; so any two
+   views of the same raw list agree through it, and two views of the same type have the same cache. *)
+Theorem C10_cross_view_consistency : forall its ops v w,
+  let s := run true (mkst its []) ops in
+  In v (views s) -> In w (views s) ->
+  v_iter s v = (s, Ok (map (from_raw (v_kind v)) (filtered (v_tags v) (items s))))
+  /\ v_iter s w = (s, Ok (map (from_raw (v_kind w)) (filtered (v_tags w) (items s))))
+  /\ (v_tags v = v_tags w -> v_idx v = v_idx w /\ (v_kind v = v_kind w -> v_iter s v = v_iter s w)).
+Proof.
+  intros its ops v w s Hv Hw.
+  pose proof (C10_view_inv_in_history its ops v Hv) as HVv. fold s in HVv.
+  pose proof (C10_view_inv_in_history its ops w Hw) as HVw. fold s in HVw.
+  split; [now apply v_iter_spec|]. split; [now apply v_iter_spec|].
+  intros Ht. split; [unfold ViewInv in *; congruence|].
+  intros Hk. rewrite (v_iter_spec s v HVv), (v_iter_spec s w HVw). congruence.
+Qed.
+
+(* What harness/c10.py evaluates (inside Coq) on every state the implementation dumped: when the checker
+   says true, the dumped state satisfies the hypothesis of the theorems above. *)
+Theorem C10_dumped_state_hypothesis_sound : forall s, all_inv_b s = true -> AllInv s.
+Proof. exact all_inv_b_sound. Qed.
 
 (* bisect_left is the partition point of any list split as (< x) ++ (>= x), e.g. every sorted list *)
 Theorem C10_bisect_left_partition : forall a b x,
@@ -148,3 +272,23 @@ Proof. vm_compute. repeat split; discriminate. Qed.
 Example C10_bisect_hyp : Forall (fun y => y < 3) [0; 2] /\ Forall (fun y => 3 <= y) [3; 5]
                          /\ bisect_left ([0; 2] ++ [3; 5]) 3 = 2.
 Proof. repeat split; repeat constructor; vm_compute; congruence. Qed.
+
+(* non-vacuity of the mapping theorem: a reachable node view with a duplicated key (first match wins) *)
+Example C10_mapping_nonvacuous :
+  let s := run true (mkst [mkelem 1 5 10; mkelem 0 0 1; mkelem 1 6 11; mkelem 1 5 12] []) [ORegister [1] KNode] in
+  exists v, In v (views s) /\ v_kind v = KNode
+    /\ assoc_find 5 (filtered (v_tags v) (items s)) = Some (mkelem 1 5 10)
+    /\ assoc_find 7 (filtered (v_tags v) (items s)) = None
+    /\ assoc_del 5 (filtered (v_tags v) (items s)) = [mkelem 1 6 11; mkelem 1 5 12]
+    /\ fst (m_delitem s v 5) = fst (step true s (RDel (IInt 0))).
+Proof.
+  cbv zeta. eexists. split; [vm_compute; left; reflexivity|]. repeat split.
+Qed.
+(* non-vacuity of view[slice] = xs: an extended slice of a string view, equal length *)
+Example C10_setslice_nonvacuous :
+  let s := run true (mkst [mkelem 1 0 10; mkelem 2 0 20; mkelem 1 0 11; mkelem 1 0 12] []) [ORegister [1] KString] in
+  exists v, nth_error (views s) 0 = Some v /\ ViewInv (items s) v
+    /\ list_setitem_eqlen (map (from_raw (v_kind v)) (filtered (v_tags v) (items s)))
+         (ISlice (mkslc None None (Some (-2)))) [mkelem 0 0 7; mkelem 0 0 8]
+       = Ok [mkelem 0 0 8; mkelem 0 0 11; mkelem 0 0 7].
+Proof. cbv zeta. eexists. repeat split. Qed.
